@@ -357,8 +357,14 @@ def cnum(x):
             return "NNaN"
         if x.is_infinite():
             return "(NInf %s)" % cbool(x < 0)
-        m, e = dec_of_str(str(x))
-        return "(NDec %s %s FDecimal)" % (cz(m), cz(e))
+        # straight from the digit tuple: no int <-> str conversion (CPython limits those to 4300 digits)
+        sign, digits, exp = x.as_tuple()
+        ds = "".join(map(str, digits)).lstrip("0")
+        stripped = ds.rstrip("0")
+        exp += len(ds) - len(stripped)
+        if not stripped:
+            return "(NDec 0 0 FDecimal)"
+        return "(NDec %s %s FDecimal)" % (("(-%s)" % stripped) if sign else stripped, cz(exp))
     raise TypeError("not a num: %r" % (x,))
 
 
